@@ -1,7 +1,15 @@
 import ESRVerif.Model.Partition
+import ESRVerif.Generated.DirProto
 import ESRVerif.Driver.Util
 namespace ESR.Driver.Partition
 open ESR ESR.Driver
+
+/-- the directory operations rank `r` performs under protocol `p` of the regenerated table, as text
+(`checkMkdir:<dir>` = `if not isdir(d): mkdir(d)`, `makedirsExistOk:<dir>` = `os.makedirs(d, exist_ok=True)`) -/
+def protoLine (p : Gen.DirProto.Protocol) (r : Nat) : String :=
+  let ops := if p.rank0Only && r != 0 then [] else
+    p.steps.map (fun s => (match s.kind with | .checkMkdir => "checkMkdir:" | .makedirsExistOk => "makedirsExistOk:") ++ toString s.dir)
+  String.intercalate " " ([p.name, if p.rank0Only then "1" else "0", if p.barrierAfter then "1" else "0"] ++ ops)
 
 def handle : Handler
   | ["split", n, p, r] => do
@@ -14,6 +22,12 @@ def handle : Handler
       let sl := Partition.getFunctionsSlice (List.range n) p r
       let first := match sl with | [] => "-" | a :: _ => toString a
       some s!"{Partition.dataStart n p r} {Partition.dataEnd n p r} {first} {sl.length}"
+  | ["dirproto", i, r] => do
+      -- protocol number i of Generated/DirProto.lean as seen by rank r: name rank0Only barrierAfter ops...
+      let [i, r] ← natArgs [i, r] | none
+      match Gen.DirProto.protocols[i]? with
+      | none => some "none"
+      | some p => some (protoLine p r)
   | _ => none
 
 end ESR.Driver.Partition
